@@ -1,5 +1,6 @@
 #!/bin/sh
 # usage: tools/try_mutant.sh <patch.diff> <prop> [<prop>...]   — applies the patch to /repo, runs the quick checks, reverts.
+export VERIF_EVIDENCE_DIR=/verif/work/evidence-scratch   # keep the committed evidence (unchanged tree, seed 1) intact
 patch="$1"; shift
 cd /verif
 git -C /repo apply "$patch" || { echo "patch does not apply"; exit 9; }
